@@ -193,6 +193,7 @@ class Solver:
         for pinname, (st, pin) in copy_dic.items():
             if st is structure:
                 self.pin_mapping.pop(pinname)
+        self.monitor_st.pop(structure, None)
 
     def remove_structure(self, structure: Structure) -> None:
         """Remove structure from solver, also removing all the connections to other structures
@@ -224,6 +225,7 @@ class Solver:
         for pinname, (st, pin) in copy_dic.items():
             if st is structure:
                 self.pin_mapping.pop(pinname)
+        self.monitor_st.pop(structure, None)
 
     def monitor_structure(
         self, structure: Structure = None, name: str = "Monitor"
